@@ -126,13 +126,13 @@ Proof.
   (* geometries *)
   destruct (omapM (load_geometry numtab) (geometry_elems root)) as [geoms|] eqn:G; [|discriminate H].
   rewrite (geometries_read _ _ _ F G). cbn [obind] in H |- *.
+  assert (EN : map (fun g => (Some (g_id g), g_uid g)) (map (fun g => erase_geom g (g_sources g)) geoms)
+               = map (fun g => (Some (g_id g), g_uid g)) geoms) by (rewrite map_map; reflexivity).
+  rewrite !EN.
   step H.
   destruct (omapM (load_light numtab) (lib_elems a_library_lights a_light root)) as [lights|] eqn:LL; [|discriminate H].
   rewrite (omapM_refine _ _ _ _ (load_light_refines numtab) LL). cbn [obind] in H |- *.
   step H.
-  assert (EN : map (fun g => (Some (g_id g), g_uid g)) (map (fun g => erase_geom g (g_sources g)) geoms)
-               = map (fun g => (Some (g_id g), g_uid g)) geoms) by (rewrite map_map; reflexivity).
-  rewrite EN.
   rewrite (lib_nodes_all_ext read_node_loader load_node read_node_loader_eq).
   step H.
   rewrite (omapM_ext _ _ _ (load_scene_ext read_node_loader load_node read_node_loader_eq _)).
